@@ -294,7 +294,7 @@ pub fn chain_case(ch: &mut Chooser, t: &mut Tally) {
 pub fn run(tier: Tier, _seed: u64, tally: &mut Tally) -> CheckMeta {
     let (max_nodes, bound) = if tier.thorough() { (8, 3) } else { (7, 2) };
     MAX_NODES.store(max_nodes, Ordering::Relaxed);
-    explore("c07.tree", Limits::new(bound).wall(if tier.thorough() { 3000 } else { 100 }), tally, tree_case);
+    explore("c07.tree", Limits::new(bound).wall(if tier.thorough() { 3000 } else { 600 }), tally, tree_case);
     explore("c07.chain", Limits::new(0), tally, chain_case);
     tally.validated = tally.evaluations;
     tally.sample(json!({"engine": "c07.tree", "shape": "((p)()p(pp))", "attributes": "MediaBox on root and on node 3, CropBox on node 5"}));
